@@ -653,7 +653,7 @@ class TemplateNode(WikiNode):
                                 equal_sign_index + 1 :
                             ].lstrip()
                             if (
-                                parameter_name.isdigit()
+                                parameter_name.isdecimal()
                                 and int(parameter_name) > 0
                             ):  # value contains "="
                                 parameter_name = int(parameter_name)
